@@ -1361,6 +1361,13 @@ package res
 //@   ensures prefix: imp(mh != nil && len(m.path) > 0, (len(rname) == len(m.path) && rname == m.path) || (len(rname) > len(m.path) && rname[0:len(m.path)] == m.path && rname[len(m.path)] == '.'))
 //@   ghost entry :: use open(m.root)
 //@   ghost call matchNode#1 after :: use open(nm.n)
+//@   # the search starts at the root of this Mux with the first token, and what is reported is what the search found
+//@   ghost call matchNode#1 before :: assert from.root: arg_l == m.root && arg_i == 0 && arg_mi == 0
+//@   ghost store Listeners#2 before :: assert listeners.of.match: ref(arg_value) == ref(nm.n.listeners)
+//@   ghost store Params#1 before :: assert params.of.match: ref(arg_value) == ref(nm.params)
+//@   ghost store Listeners#1 before :: assert listeners.of.root: ref(arg_value) == ref(m.root.listeners)
+//@   ghost call group.toString#1 before :: assert group.of.match: arg_g == nm.n.hs.group && len(arg_tokens) == len(tokens) - nm.mountIdx
+//@   ghost call group.toString#2 before :: assert group.of.root: arg_g == m.root.hs.group && same(arg_rname, rname)
 //@   # the search bookkeeping of matchNode (mhit, mnode) is local to one lookup: it is put back so that no caller has to name it
 //@   ghost exit :: set mhit = old(mhit)
 //@   ghost exit :: set mnode = old(mnode)
